@@ -1,15 +1,16 @@
 """C08: preconditioners apply exactly their defining linear operator.
 
 Three parts, one TLC-generated case stream each, replayed on the real classes with exact comparison:
-  scalar   spec/Precond.tla     -> harness/c08_precond.cpp      SparseMatrixCSR<double>, UnitFilter
+  scalar   spec/Precond.tla     -> harness/c08_precond.cpp      SparseMatrixCSR<double>, FilterChain<UnitFilter, MeanFilter, UnitFilter>
   blocked  spec/PrecondBlk.tla  -> harness/c08_precond_blk.cpp  SparseMatrixBCSR<double,Index,BS,BS> / DenseVectorBlocked /
-                                                                UnitFilterBlocked, BS = 2, 3
+                                                                FilterChain<UnitFilterBlocked, MeanFilterBlocked, UnitFilterBlocked>, BS = 2, 3
   ilusym   spec/IluSym.tla      -> harness/c08_ilusym.cpp       ILU(p) level-of-fill patterns on n = 5..10 (ILUCoreSymbolic)
 
 TLC enumerates matrices (all sparsity patterns containing the diagonal, dyadic value palettes with power-of-two
 diagonals resp. diagonal blocks of determinant +-2^k, non-symmetric and non-commuting blocks included), preconditioner
-kinds and parameters, filters and life-cycle histories; the exact dyadic definitions of the specifications predict the
-result of every apply(); the replayers compare the real classes with ==.  TLC also checks the sanity laws of the
+kinds and parameters, filters (none, unit filters, mean filters with non-proportional primal / dual vectors - for which
+the correction filter differs from the defect filter - and chains unit ; mean ; unit) and life-cycle histories; the exact
+dyadic definitions of the specifications predict the result of every apply(); the replayers compare the real classes with ==.  TLC also checks the sanity laws of the
 definitions themselves (defining relations of Jacobi/SOR/SSOR, block inverse, LU = A on the level-p pattern, complete
 fill => A^-1, linearity, blocked definitions with BS = 1 == scalar definitions, level recurrence == fill-path
 characterisation) on every generated input.
@@ -22,7 +23,7 @@ import c08x
 LEVEL = "model_checking"
 ALL = ["jacobi", "sor", "ssor", "poly", "ilu", "scale", "diagonal", "matrix"]
 INV = "SorRelation SsorRelation JacobiRelation IluLaws Linearity FilterLaw MeanFilterLaw LifeOK Emit"
-BLAWS = "BInvLaw BJacobiRelation BSorRelation BSsorRelation BIluLaws BLinearity ScalarConsistency BFilterLaw BLifeOK"
+BLAWS = "BInvLaw BJacobiRelation BSorRelation BSsorRelation SsorTableLaw BIluLaws BLinearity ScalarConsistency BFilterLaw BLifeOK"
 HARNESS = {"scalar": "c08_precond", "blocked": "c08_precond_blk", "ilusym": "c08_ilusym"}
 
 
@@ -49,24 +50,43 @@ def cfg_sym(ns, seeds, dens, pmax, crafted):
 
 def jobs_scalar(tier):
     j = []
-    # n = 2, 3: every pattern, three value palettes, every kind and parameter, with and without filtered dofs
-    for k in ALL:
-        if k in ("poly", "ssor", "sor", "ilu"):
-            for pl in ((1, 2, 3) if tier == "thorough" or k == "ilu" else (1, 2)):      # the expensive kinds are sharded over the value palette
-                j.append(("n<=3 %s pal%d" % (k, pl), cfg_text([2, 3], [k], [pl], 0, 99, 1)))
-        else:
-            j.append(("n<=3 %s" % k, cfg_text([2, 3], [k], [1, 2, 3], 0, 99, 1)))
-    j.append(("n=1", cfg_text([1], ALL, [1, 2], 0, 0, 0)))
+    # filters (last argument of cfg_text): 0 none, 1 none + unit filters, 2 none + unit + mean filters and chains, 3 only mean filters and chains
     if tier == "thorough":
+        # n = 2, 3: every pattern, three value palettes, every kind and parameter, every filter of the family
+        for k in ALL:
+            if k in ("poly", "ssor", "sor", "ilu"):
+                for pl in (1, 2, 3):              # the expensive kinds are sharded over the value palette
+                    j.append(("n<=3 %s pal%d" % (k, pl), cfg_text([2, 3], [k], [pl], 0, 99, 2)))
+            else:
+                j.append(("n<=3 %s" % k, cfg_text([2, 3], [k], [1, 2, 3], 0, 99, 2)))
+        j.append(("n=1", cfg_text([1], ALL, [1, 2], 0, 0, 0)))
         # n = 4: every pattern for the substitution-based kinds, sharded over the number of off-diagonal entries
         for lo, hi in ((0, 4), (5, 5), (6, 6), (7, 7), (8, 12)):
             j.append(("n=4 tri %d..%d" % (lo, hi), cfg_text([4], ["sor", "ssor", "ilu"], [1], lo, hi, 0)))
         j.append(("n=4 ilu pal2", cfg_text([4], ["ilu"], [2], 0, 5, 0)))
         j.append(("n=4 other", cfg_text([4], ["jacobi", "poly", "scale", "diagonal", "matrix"], [1], 0, 4, 1)))
+        j.append(("n=4 mean filters", cfg_text([4], ["jacobi", "sor", "ssor", "ilu", "scale", "diagonal", "matrix"], [2], 3, 3, 3)))
         j.append(("histories n=2", cfg_text([2], ALL, [1, 2], 0, 2, 0, "hist", 6)))
         j.append(("histories n=3", cfg_text([3], ["sor", "ssor", "ilu", "poly", "jacobi"], [1], 3, 3, 0, "hist", 5)))
+        j.append(("histories n=2 mean filter", cfg_text([2], ["jacobi", "ssor", "poly", "matrix"], [1], 2, 2, 3, "hist", 5)))
     else:
-        j.append(("n=4 tri 0..3", cfg_text([4], ["sor", "ssor", "ilu"], [1], 0, 3, 0)))
+        # n = 2, 3: every pattern with no / unit filters (the expensive kinds on one or two palettes)
+        for k in ("sor", "ssor"):
+            for pl in (1, 2):
+                j.append(("n<=3 %s pal%d" % (k, pl), cfg_text([2, 3], [k], [pl], 0, 99, 1)))
+        j.append(("n<=3 poly pal1", cfg_text([2, 3], ["poly"], [1], 0, 99, 1)))
+        j.append(("n<=3 poly pal2", cfg_text([2, 3], ["poly"], [2], 0, 99, 0)))
+        j.append(("n<=3 ilu", cfg_text([2, 3], ["ilu"], [1, 2, 3], 0, 99, 1)))
+        j.append(("n<=3 jacobi", cfg_text([2, 3], ["jacobi"], [1, 2, 3], 0, 99, 1)))
+        j.append(("n<=3 scale", cfg_text([2, 3], ["scale"], [1, 2, 3], 0, 99, 1)))
+        j.append(("n<=3 diagonal matrix", cfg_text([2, 3], ["diagonal", "matrix"], [1, 2, 3], 0, 99, 1)))
+        j.append(("n=1", cfg_text([1], ALL, [1, 2], 0, 0, 0)))
+        # EVERY kind with mean filters (correction filter # defect filter) and chains unit ; mean ; unit
+        j.append(("n<=3 mean filters a", cfg_text([2, 3], ["sor", "ssor", "ilu", "poly"], [1], 0, 2, 3)))
+        j.append(("n<=3 mean filters b", cfg_text([2, 3], ["jacobi", "scale", "diagonal", "matrix"], [1], 0, 2, 3)))
+        # n = 4 (the thorough tier takes every pattern)
+        j.append(("n=4 tri 0..2", cfg_text([4], ["sor", "ssor", "ilu"], [1], 0, 2, 0)))
+        j.append(("n=4 ilu 3", cfg_text([4], ["ilu"], [1], 3, 3, 0)))
         j.append(("n=4 ilu 4", cfg_text([4], ["ilu"], [2], 4, 4, 0)))
         j.append(("histories n=2", cfg_text([2], ALL, [1], 1, 2, 0, "hist", 5)))
     return [("scalar", "Precond", n, t) for n, t in j]
@@ -80,30 +100,37 @@ def jobs_blocked(tier):
     j = []
     if tier == "thorough":
         for bs in (2, 3):
-            for k in BLOCKSUB:                     # every block pattern, every palette, filters
+            for k in BLOCKSUB:                     # every block pattern, every palette, unit filters
                 for pl in (1, 2, 3):
                     j.append(("blk%d n<=3 %s pal%d" % (bs, k, pl), cfg_blk(bs, [1, 2, 3], [k], [pl], 0, 99, 1)))
             for pl in (1, 2, 3):
                 j.append(("blk%d n<=3 pointwise pal%d" % (bs, pl), cfg_blk(bs, [1, 2, 3], POINTWISE, [pl], 0, 99, 1)))
                 j.append(("blk%d n<=3 poly pal%d" % (bs, pl), cfg_blk(bs, [2, 3], ["poly"], [pl], 0, 99, 1)))
+                # blocked mean filters (one vector pair per component) and chains, every kind
+                j.append(("blk%d n<=3 mean filters pal%d" % (bs, pl), cfg_blk(bs, [2, 3], ALL, [pl], 0, 3, 3)))
             j.append(("blk%d histories n=2" % bs, cfg_blk(bs, [2], ALL, [1, 2], 0, 2, 0, "hist", 6)))
             j.append(("blk%d histories n=3" % bs, cfg_blk(bs, [3], ["sor", "ssor", "ilu", "poly", "jacobi"], [3], 3, 3, 0, "hist", 5)))
         j.append(("blk1 == scalar", cfg_blk(1, [1, 2, 3], ALL, [1, 2, 3], 0, 99, 1, emit=False)))
+        j.append(("blk1 == scalar, mean filters", cfg_blk(1, [2, 3], ALL, [1, 2], 0, 3, 3, emit=False)))
     else:
         # block size 2: every block pattern for the block-substitution kinds; block size 3: n = 2 complete, n = 3 sharded
-        for pl in (1, 2, 3):
-            j.append(("blk2 n<=3 ssor pal%d" % pl, cfg_blk(2, [2, 3], ["ssor"], [pl], 0, 99, 1)))
+        j.append(("blk2 n<=3 ssor pal1", cfg_blk(2, [2, 3], ["ssor"], [1], 0, 99, 1)))
+        j.append(("blk2 n<=3 ssor pal2,3", cfg_blk(2, [2, 3], ["ssor"], [2, 3], 0, 99, 0)))
         for k in ("ilu", "sor"):
             j.append(("blk2 n<=3 %s" % k, cfg_blk(2, [2, 3], [k], [1, 2, 3], 0, 99, 1)))
-        for k in BLOCKSUB:
-            j.append(("blk3 n=3 %s" % k, cfg_blk(3, [3], [k], [1, 2], 0, 4, 0)))
+        j.append(("blk3 n=3 sor", cfg_blk(3, [3], ["sor"], [1, 2], 0, 4, 0)))
+        j.append(("blk3 n=3 ssor", cfg_blk(3, [3], ["ssor"], [1, 2], 0, 3, 0)))
+        j.append(("blk3 n=3 ilu", cfg_blk(3, [3], ["ilu"], [1, 2], 0, 4, 0)))
         j.append(("blk3 n<=2", cfg_blk(3, [1, 2], ALL, [1, 2, 3], 0, 99, 1)))
         j.append(("blk3 n=3 pointwise", cfg_blk(3, [3], POINTWISE, [2], 3, 3, 1)))
         j.append(("blk3 n=3 poly", cfg_blk(3, [3], ["poly"], [2], 2, 2, 0)))
         j.append(("blk2 n<=3 pointwise", cfg_blk(2, [2, 3], POINTWISE, [1, 3], 0, 3, 1)))
-        j.append(("blk2 n<=3 poly", cfg_blk(2, [2, 3], ["poly"], [1], 0, 3, 1)))
+        j.append(("blk2 n<=3 poly", cfg_blk(2, [2, 3], ["poly"], [1], 0, 2, 1)))
+        # blocked mean filters (MeanFilterBlocked: one primal / dual vector pair per component) and chains, EVERY kind
+        j.append(("blk2 mean filters", cfg_blk(2, [2, 3], ALL, [2], 1, 2, 3)))
+        j.append(("blk3 mean filters", cfg_blk(3, [2], ALL, [3], 1, 2, 3)))
         j.append(("blk2 histories n=2", cfg_blk(2, [2], ALL, [1], 1, 2, 0, "hist", 5)))
-        j.append(("blk1 == scalar", cfg_blk(1, [2, 3], ALL, [1], 0, 99, 0, emit=False)))
+        j.append(("blk1 == scalar", cfg_blk(1, [2, 3], ALL, [1], 0, 2, 0, emit=False)))
     return [("blocked", "PrecondBlk", n, t) for n, t in j]
 
 
@@ -121,7 +148,7 @@ def jobs_ilusym(tier):
 def generate(chk):
     # one pool for all parts; the long jobs are submitted first
     sc = jobs_scalar(chk.tier)
-    heavy = [x for x in sc if "n=4" in x[2] or "poly" in x[2]]
+    heavy = [x for x in sc if "n=4" in x[2] or "poly" in x[2] or "mean" in x[2]]
     jobs = heavy + jobs_blocked(chk.tier) + [x for x in sc if x not in heavy] + jobs_ilusym(chk.tier)
     names = []
     for k, (part, module, name, text) in enumerate(jobs):
@@ -209,6 +236,13 @@ def run(chk):
         ntests = len(c["tests"])
         napply += sum(ntests for s in c["steps"] if s["op"] == "AP")
     chk.extra["cases_per_kind"] = hist
+    mean = {}
+    for c in cases:
+        if c["_part"] != "ilusym" and c["mk"] != 0:
+            k = c["kind"] if c["_part"] == "scalar" else "%s/bs%d" % (c["kind"], c["bs"])
+            mean[k] = mean.get(k, 0) + 1
+    chk.extra["cases_with_mean_filter_per_kind"] = mean
+    chk.extra["cases_with_filter_chain"] = sum(1 for c in cases if c["_part"] != "ilusym" and c["mk"] != 0 and (c["F"] or c["F2"]))
     chk.extra["apply_calls_compared"] = napply
     chk.extra["ilu_cases_with_fill"] = sum(1 for c in cases if c["_part"] == "scalar" and c["kind"] == "ilu" and c["ilu1"]["pat"] != c["pat"])
     blk_ilu = [c for c in cases if c["_part"] == "blocked" and c["kind"] == "ilu"]
@@ -224,7 +258,8 @@ def run(chk):
     chk.exhaustive = True
     chk.rule = ("every initial state of spec/Precond.tla (scalar) and spec/PrecondBlk.tla (block sizes 2 and 3) within the bounds (all sparsity "
                 "patterns containing the diagonal for n <= 3 scalars resp. blocks, bounded/sharded for n = 4 and for 3x3 blocks in the quick tier; "
-                "value palettes; omega in {1/2,1,3/2}; ILU fill levels; polynomial order 1..3; filtered dofs/blocks) "
+                "value palettes; omega in {1/2,1,3/2}; ILU fill levels; polynomial order 1..3; filters: none, unit filters on dofs/blocks, and - for every kind - "
+                "mean filters with non-proportional dyadic primal/dual vectors (<prim,dual> a power of two) alone and in chains unit;mean, mean;unit, unit;mean;unit) "
                 "that lies in the exact dyadic domain, each with the canonical life-cycle history init_symbolic, init_numeric, apply, "
                 "update values, apply (stale), init_numeric, apply, done_numeric, update, init_numeric, apply, done_numeric, done_symbolic "
                 "(or every history of bounded length), each apply on all unit vectors, a generic vector g and 2g - e1; plus every pattern of the "
@@ -236,8 +271,10 @@ def run(chk):
             chk.sample({k: c[k] for k in ("bs", "n", "kind", "w", "p", "m", "pat", "A1", "src") if k in c})
     chk.assumptions = ["matrices are restricted to the exact dyadic domain: power-of-two diagonals (ILU: power-of-two pivots), blocked: diagonal "
                        "(ILU: pivot) blocks with determinant +-2^k; inputs whose factorisation leaves it are not generated",
-                       "SparseMatrixCSR<double> with UnitFilter and SparseMatrixBCSR<double,Index,BS,BS> (BS = 2, 3) with UnitFilterBlocked, generic "
-                       "backend (Uzawa / Vanka / AmaVanka / Schwarz: see the extension below)",
+                       "SparseMatrixCSR<double> with FilterChain<UnitFilter, MeanFilter, UnitFilter> and SparseMatrixBCSR<double,Index,BS,BS> (BS = 2, 3) with "
+                       "FilterChain<UnitFilterBlocked, MeanFilterBlocked, UnitFilterBlocked> (an empty member is the identity; the chain applies its members in "
+                       "order), generic backend (Uzawa / Vanka / AmaVanka / Schwarz: see the extension below); SlipFilter is not covered",
+                       "polynomial preconditioner with a mean filter: order <= 2 (32 bit integers of TLC bound the dyadic exponents)",
                        "JacobiPrecond/PolynomialPrecond on blocked matrices are the POINTWISE operators (scalar main diagonal), as implemented "
                        "and documented (extract_diag); block-Jacobi is not a FEAT preconditioner",
                        "between a value update and the next init_numeric the result is unspecified: old-operator, new-operator and (Polynomial) "
